@@ -80,7 +80,7 @@ func newSt(c *mc.SeqCtx, cfg *seqCfg) *st {
 	}
 	s.root = newRoot(w, cfg.fold, cfg.hidden)
 	s.m.beginOp()
-	rootNode := s.m.newDir(&mLazy{})
+	rootNode := s.m.newDir(0, &mLazy{})
 	s.slots[0] = rootNode
 	s.bindDir(rootNode, s.root)
 	s.inSetup = true
@@ -510,17 +510,23 @@ func (s *st) checkChild(n *mNode, dir virtual.Directory, leaf virtual.Leaf, a *v
 	}
 }
 
-func (s *st) vLookup(di int, name string) {
+// maskPlain does not contain attributes that need the lock of a child
+// directory: VirtualLookup takes a different path.
+const maskPlain = virtual.AttributesMaskFileType | virtual.AttributesMaskInodeNumber | virtual.AttributesMaskLinkCount
+
+func (s *st) vLookup(di int, name string) { s.vLookupMask(di, name, maskAll) }
+
+func (s *st) vLookupMask(di int, name string, mask virtual.AttributesMask) {
 	d := s.slots[di]
 	var out virtual.Attributes
-	child, st := s.dirImpl[d].VirtualLookup(ctx, mk(name), maskAll, &out)
+	child, st := s.dirImpl[d].VirtualLookup(ctx, mk(name), mask, &out)
 	o := s.m.opLookup(d, name, st)
 	if !s.status(o) {
 		return
 	}
 	dir, leaf := child.GetPair()
 	s.checkChild(o.node, dir, leaf, &out)
-	if o.node.dir {
+	if o.node.dir && mask&virtual.AttributesMaskChangeID != 0 {
 		if impl, ok := s.dirImpl[o.node]; ok {
 			if want := s.snapOf(impl).ChangeID; out.GetChangeID() != want {
 				s.fail("C13", "changeid-attr", "VirtualLookup reported change counter %d for a directory whose counter is %d", out.GetChangeID(), want)
@@ -761,6 +767,15 @@ func (s *st) bFilterChildren(di int, mode filterMode) {
 		} else {
 			gotLeaves = append(gotLeaves, leaf)
 		}
+		// The callback must be invoked without any directory lock held
+		// (the remover re-enters the directory).
+		for _, n := range s.dirs {
+			if !virtual.VerifDirectoryLockIsFree(s.dirImpl[n]) {
+				s.fail("C14", "lockleak-callback", "FilterChildren invoked its callback with the lock of directory %d held", n.id)
+				s.poisoned = true
+				return false
+			}
+		}
 		if mode == filterRemoveAll {
 			if err := remove(); err != nil {
 				removeErrs = append(removeErrs, err)
@@ -768,6 +783,9 @@ func (s *st) bFilterChildren(di int, mode filterMode) {
 		}
 		return mode != filterStop
 	})
+	if s.poisoned {
+		return
+	}
 	if !s.status(outcome{bad: second(verdict(errStatus(err), nil)), applied: err == nil}) {
 		return
 	}
@@ -896,6 +914,38 @@ func (s *st) vGetChangeID(di int) {
 	}
 	if a.GetFileType() != filesystem.FileTypeDirectory {
 		s.fail("C13", "kind", "directory reports file type %d", a.GetFileType())
+	}
+	// Two more calls that take the directory lock.
+	s.dirImpl[d].VirtualApply(struct{}{})
+	var b virtual.Attributes
+	if st := s.dirImpl[d].VirtualSetAttributes(ctx, &virtual.Attributes{}, maskAll, &b); st != sOK || b.GetChangeID() != a.GetChangeID() {
+		s.fail("C13", "changeid-attr", "VirtualSetAttributes without changes returned %s and change counter %d (was %d)", sname(st), b.GetChangeID(), a.GetChangeID())
+	}
+}
+
+// installHooks replaces the allocators of a directory by the same fakes.
+func (s *st) installHooks(di int) {
+	s.dirImpl[s.slots[di]].InstallHooks(s.w, symlinkFactory{s.w}, s.w.logger, func(virtual.AttributesMask, *virtual.Attributes) {}, virtual.NoNamedAttributesFactory)
+}
+
+// foreignLeaf / foreignDir are nodes of another file system implementation.
+type foreignLeaf struct{ virtual.Leaf }
+type foreignDir struct{ virtual.Directory }
+
+func (s *st) vLinkForeign(di int, name string) {
+	d := s.slots[di]
+	var out virtual.Attributes
+	_, st := s.dirImpl[d].VirtualLink(ctx, mk(name), foreignLeaf{&fakeLeaf{}}, maskAll, &out)
+	if st != sXDev {
+		s.fail("C13", "status", "VirtualLink of a leaf of a different file system returned %s, not EXDEV", sname(st))
+	}
+}
+
+func (s *st) vRenameForeign(di int, name string) {
+	d := s.slots[di]
+	_, _, st := s.dirImpl[d].VirtualRename(ctx, mk(name), foreignDir{s.root}, mk(name))
+	if st != sXDev {
+		s.fail("C13", "status", "VirtualRename into a directory of a different file system returned %s, not EXDEV", sname(st))
 	}
 }
 
